@@ -11,7 +11,7 @@ LEVEL = "exploration"
 TECHNIQUE = "bounded-exhaustive enumeration of (GAF file, haplotag TSV) pairs through phase.run against the line grammar and the TSV contents"
 RULE = (
     "record alphabet: strand in {+,-} x path in {unstable walk, stable intervals, bare contig} x optional fields in {none, cg only, tp + cg, "
-    "tp + NM + cg with cg in the middle, a Z value with ':' '%' and a space} over reads r1, r2 (14 shapes per read); every file of <=N records (N=2 quick, 3 thorough); TSV: "
+    "tp + NM + cg with cg in the middle, a Z value with ':' '%' and a space} over reads r1, r2 (16 shapes per read); every file of <=N records (N=2 quick, 3 thorough); TSV: "
     "every assignment of {H1, H2, none, missing from the TSV, listed twice} to the two reads, with and without the whatshap header line. "
     "evaluations = phase runs; non-trivial = files with >=2 records or a '-' strand or optional fields."
 )
@@ -36,13 +36,17 @@ def bounds(tier):
 
 
 PATHS = [(">s1>s2", 30, 2, 12), (">chr1:0-10>hA#1#c:5-25", 30, 2, 12), ("chr1", 1000, 102, 112)]
-OPTS = [[], ["cg:Z:10="], ["tp:A:P", "cg:Z:4=1X5="], ["tp:A:P", "cg:Z:10=", "NM:i:0"], ["sp:Z:chr1:1000-2000 50%", "cg:Z:10="]]
+OPTS = [[], ["cg:Z:10="], ["tp:A:P", "cg:Z:4=1X5="], ["tp:A:P", "cg:Z:10=", "NM:i:0"], ["sp:Z:chr1:1000-2000 50%", "cg:Z:10="],
+        ["ps:Z:chr9-77", "ht:Z:H2", "cg:Z:10="]]  # the last: the output of an earlier phase run is phased again
 STATES = ["H1", "H2", "none", "missing", "twice"]
+
+
+R2 = "@r2/1"  # a read name as it appears in a FASTQ header line
 
 
 def alphabet():
     out = []
-    for read in ("r1", "r2"):
+    for read in ("r1", R2):
         for strand in "+-":
             for pi, (path, plen, ps, pe) in enumerate(PATHS):
                 for oi in (range(len(OPTS)) if pi == 0 else (pi % len(OPTS), (pi + 2) % len(OPTS))):
@@ -59,7 +63,7 @@ def tsv_text(states, header):
         lines.append("#readname\thaplotype\tphaseset\tchromosome")
     for i in range(TSV_FILLER[0]):
         lines.append(f"other_read_{i:07d}\tH{1 + i % 2}\t{1000 + i % 7}\tchr{1 + i % 22}")
-    for read, st in zip(("r1", "r2"), states):
+    for read, st in zip(("r1", R2), states):
         if st == "missing":
             continue
         hap = st if st in ("H1", "H2") else ("H2" if st == "twice" else "none")
@@ -134,12 +138,29 @@ def judge(res, scratch, recs, states, header, large=False):
             kinds = sorted({("empty-field" if x == "" else "double-colon" if "::" in x[:7] else "not-a-tag") for x in bad})
             res.fail("C20/malformed-fields:" + "+".join(kinds), f"fields that are not TAG:TYPE:VALUE in {line!r}: {bad}", case)
             continue
-        ps = [x for x in opt if x.startswith("ps:Z:")]
-        ht = [x for x in opt if x.startswith("ht:Z:")]
-        rest = [x for x in opt if x[:5] not in ("ps:Z:", "ht:Z:")]
-        if len(ps) != 1 or len(ht) != 1:
-            res.fail("C20/ps-ht-count", f"expected exactly one ps:Z and one ht:Z, got {ps} {ht}", case)
-            continue
+        # the gained pair = what is left when the input's optional fields are taken out (an input that was phased before
+        # keeps its old ps/ht among its fields)
+        ps = ht = rest = None
+        for i, a in enumerate(opt):
+            if not a.startswith("ps:Z:"):
+                continue
+            for j, b in enumerate(opt):
+                if j != i and b.startswith("ht:Z:") and [x for k, x in enumerate(opt) if k not in (i, j)] == rin.opt:
+                    ps, ht, rest = [a], [b], rin.opt
+                    break
+            if ps:
+                break
+        if ps is None:
+            ps = [x for x in opt if x.startswith("ps:Z:")]
+            ht = [x for x in opt if x.startswith("ht:Z:")]
+            rest = [x for x in opt if x[:5] not in ("ps:Z:", "ht:Z:")]
+            n_in = sum(1 for x in rin.opt if x.startswith("ps:Z:"))
+            if len(ps) != 1 + n_in or len(ht) != 1 + n_in:
+                res.fail("C20/ps-ht-count", f"expected exactly one new ps:Z and one new ht:Z next to the input's fields {rin.opt}, got {opt}", case)
+                continue
+            if n_in:
+                res.fail("C20/optional-fields-changed", f"optional fields {rin.opt} came out as {opt}: not the input's fields plus one ps:Z and one ht:Z", case)
+                continue
         if rest != rin.opt:
             res.fail("C20/optional-fields-changed", f"optional fields {rin.opt} came out as {rest}", case)
         exp = expected_phase(rin.qname, states)
